@@ -13,9 +13,12 @@
       predicate.
    3. The scanner's token stream is a function of the text (C05: [scanner_stream_unique]); that inserted
       blanks and comments produce no token is evaluated per generated layout by the kernel on the
-      scanner model and compared with the implementation. *)
+      scanner model and compared with the implementation.
+   4. EVERYTHING AFTER THE SCANNER depends on the token kinds and lexemes only, for all texts
+      ([result_depends_only_on_the_token_sequence]): two texts with the same token sequence give the same
+      declarations, hence the same grammar, definitions, precedences and verdict, wherever the tokens sit. *)
 From Coq Require Import List Bool Arith NArith.
-From Verif Require Import Reg.TwoBuf.
+From Verif Require Import Reg.TwoBuf Reg.MaxMunch Emerge.Pipeline.
 Import ListNotations.
 
 Theorem sequential_reading_is_exact :
@@ -23,6 +26,12 @@ Theorem sequential_reading_is_exact :
     read_all n (S (length file)) (new n file) = file.
 Proof. intros n Hn file Hf. apply read_all_correct; assumption. Qed.
 Print Assumptions sequential_reading_is_exact.
+
+Theorem result_depends_only_on_the_token_sequence t1 t2 :
+  kinds_and_lexemes (fst (scan t1)) = kinds_and_lexemes (fst (scan t2)) -> snd (scan t1) = EndEOF -> snd (scan t2) = EndEOF ->
+  front t1 = front t2.
+Proof. intros H E1 E2. apply front_depends_only_on_tokens; [exact H | rewrite E1, E2; reflexivity]. Qed.
+Print Assumptions result_depends_only_on_the_token_sequence.
 
 (* the premises are satisfiable at the real half size, with a file that crosses both halves *)
 Example reading_example :
